@@ -179,9 +179,17 @@ def drive_filter(env, case, probe=False):
     f = env.pfilter.PeriodicFilter(_period_arg(case["period"], case.get("period_int", False)),
                                    bypass_level=case["bypass"])
     res = []
+    # in a logging chain one LogRecord object goes through every filter on its way (the logger's, then each handler's): in
+    # every other case a second PeriodicFilter with another period sees each record first -- its verdict is its own business
+    other = None
+    if (case["period"] + len(case["h"])) % 2 == 0:
+        other = env.pfilter.PeriodicFilter(_period_arg(max(0, case["period"] // 3), case.get("period_int", False)),
+                                           bypass_level=case["bypass"])
     for t, lvl in case["h"]:
         env.sec = t / TPS
         rec = logging.makeLogRecord({"levelno": lvl, "levelname": "L%d" % lvl, "msg": "x"})
+        if other is not None:
+            _call(lambda: other.filter(rec))
         res.append(_b(_call(lambda: f.filter(rec))))
     return res, []
 
